@@ -99,15 +99,12 @@ Theorem intlist_fixed_witness :
 Proof. vm_compute. reflexivity. Qed.
 
 (* ---------- identifier columns and short INFO columns ---------- *)
-Theorem sid_all_empty_refuted : exists txts, txts <> [] /\ sid_col txts <> Col (map CBytes txts).
+(* before /repo 58b75b9 a column of only-empty identifiers raised (history; the model of that code is sid_col_pinned) *)
+Theorem sid_all_empty_refuted : exists txts, txts <> [] /\ sid_col_pinned txts <> Col (map CBytes txts).
 Proof. exists [[]]. split; [discriminate|]. vm_compute. discriminate. Qed.
-Theorem sid_partial : forall txts, (exists t, In t txts /\ t <> []) -> sid_col txts = Col (map CBytes txts).
-Proof.
-  intros txts [t [Ht Hne]]. unfold sid_col.
-  replace (forallb (fun t => len t =? 0) txts) with false; [reflexivity|].
-  symmetry. apply not_true_is_false. intro H. rewrite forallb_forall in H. specialize (H t Ht).
-  apply Z.eqb_eq in H. apply len_zero_nil in H. congruence.
-Qed.
+(* since the repair: an identifier column is its texts, whatever they are *)
+Theorem sid_correct : forall txts, sid_col txts = Col (map CBytes txts).
+Proof. reflexivity. Qed.
 (* a one-record VCF whose INFO is "." and a declared scalar key AC *)
 Theorem info_short_refuted :
   let rows := [[46; 10]] in
